@@ -546,7 +546,8 @@ impl<'a> Lexer<'a> {
 
                 // so far the only token type that can have a null character reach push
                 // because it adds all chars, mostly indiscriminately
-                if !end && c != '\0' {
+                // only the end-of-input marker is left out, a null character in the input is kept
+                if !end && !(c == '\0' && self.at_end) {
                     self.current_characters.push(c);
                 }
 
@@ -591,7 +592,8 @@ impl<'a> Lexer<'a> {
 
                 // so far the only token type that can have a null character reach push
                 // because it adds all chars, mostly indiscriminately
-                if c != '\0' {
+                // only the end-of-input marker is left out, a null character in the input is kept
+                if !(c == '\0' && self.at_end) {
                     self.current_characters.push(c);
                 }
 
